@@ -52,6 +52,10 @@ def make_algo(model, state, ds, seed, sampler_pop="Gibbs"):
     return algo
 
 
+def tensor_of(v):
+    return v.value if hasattr(v, "weight") else v
+
+
 def check_individual_step(state, sampler, beta, violations, ctx):
     name = sampler.name
     old = state[name].clone()
@@ -73,6 +77,14 @@ def check_individual_step(state, sampler, beta, violations, ctx):
     names = ["nll_attach_ind", f"nll_regul_{name}_ind"]
     A0, R0 = fresh_eval(state, {name: old}, names)
     A1, R1 = fresh_eval(state, {name: proposed}, names)
+    if R0.ndim == 2:
+        # mixture model: one regularity per cluster, weighted by the individual's cluster responsibilities IN THE SAME STATE
+        # (softmax of minus the per-cluster total regularity): the change of everything that depends on the block
+        S0, = fresh_eval(state, {name: old}, ["nll_regul_ind_sum_ind"])
+        S1, = fresh_eval(state, {name: proposed}, ["nll_regul_ind_sum_ind"])
+        P0 = torch.softmax(torch.clamp(-tensor_of(S0), -100.0), dim=1)
+        P1 = torch.softmax(torch.clamp(-tensor_of(S1), -100.0), dim=1)
+        R0, R1 = (P0 * R0).sum(dim=1), (P1 * R1).sum(dim=1)
     alpha = torch.exp(-((R1 - R0) * beta + (A1 - A0)))
     acc = U < alpha
     risky = (U - alpha).abs() < 1e-6
@@ -189,6 +201,26 @@ def run(tier, seed, which=("ind", "pop")):
                     break
             if violations:
                 break
+        if not violations and "ind" in which and k == 0:
+            # the mixture model (cluster axis): individual sampler steps against the same from-scratch rule
+            modelm, statem, dsm, dfm = make_model_state("mixture_logistic", dict(n_clusters=2, source_dimension=1, dimension=3), 3, seed=seed + 31)
+            algom = make_algo(modelm, statem, dsm, seed)
+            torch.manual_seed(seed + 31)
+            for sweep in range(2 if tier == "quick" else 6):
+                for name, sampler in algom.samplers.items():
+                    if type(sampler).__name__ == "IndividualGibbsSampler":
+                        ctx = dict(model="mixture_logistic", hyper="2 clusters", variable=name, sweep=sweep, beta=1.0, seed=seed + 31, sampler="IndividualGibbsSampler")
+                        e = check_individual_step(statem, sampler, 1.0, violations, ctx)
+                        evals += e
+                        if e:
+                            distinct.add(("mixture", name, sweep))
+                    else:
+                        with quiet():
+                            sampler.sample(statem, temperature_inv=1.0)
+                    if violations:
+                        break
+                if violations:
+                    break
         if not violations and "pop" in which and (k == 0 or tier != "quick"):
             # proposals whose evaluation is extreme / non-finite: same contract (one uniform draw per decision, exact restoration)
             model2, state2, ds2, df2 = make_model_state(kind, kw, n_ft, seed=seed + k)
